@@ -37,7 +37,7 @@ func c17SameInts(a, b []int) bool {
 //verif:entry property=C17 tier=both bounds="acyclic upcaster graph over 4 names with ne<=E edges (several per source allowed, first registered wins), each raw upcaster appending its id to the document; one stored event per name; failure injected at any single upcaster or none; error handler given by option or by setter" cover="chain-applied,failure-original" E_quick=3 E_thorough=4
 func harnessC17Chain() { c17Chain(vParam("E", 3), false) }
 
-//verif:entry property=C17 tier=both bounds="as above with at most 2 edges, and: the error handler given by option, by setter, explicitly nil, or installed and removed again; optionally one refused (cycle-closing) registration attempted before the replay" cover="chain-applied,failure-original"
+//verif:entry property=C17 tier=both bounds="as above with at most 2 edges, and: the error handler given by option, by setter, explicitly nil, or installed and removed again; optionally one refused (cycle-closing) registration attempted before the replay; optionally two ClearUpcastsForType calls for types without upcasters" cover="chain-applied,failure-original"
 func harnessC17ChainHandlerModes() { c17Chain(2, true) }
 
 func c17Chain(E int, extra bool) {
@@ -103,6 +103,12 @@ func c17Chain(E int, extra bool) {
 		vAssert(RegisterUpcastFunc(bus, names[f], declared, fn) == nil, "register-ok")
 		edges = append(edges, edge{f, t})
 		declTo = append(declTo, names[f], declared)
+	}
+	if extra && hmode == 0 && vBool() {
+		// clearing types that have no upcaster of their own (a chain's final type, a name nobody registered)
+		// leaves the registered chains alone
+		bus.ClearUpcastsForType("D")
+		bus.ClearUpcastsForType("legacy.type")
 	}
 	if extra && ne > 0 && vBool() {
 		// a registration that would close a cycle is attempted and refused; what was registered stays as it was
